@@ -564,8 +564,9 @@ class FuncInfo:
     def proto(self, self_const=None):
         ps = []
         if self.is_method:
-            c = self.is_const if self_const is None else self_const
-            ps.append('%sstruct %s *self' % ('const ' if c else '', self.cls))
+            # `this` is never const-qualified in the C text: a C++ const method may write mutable members, and what a const
+            # method really writes is decided by its __CPROVER_assigns frame, not by the type system
+            ps.append('struct %s *self' % self.cls)
         ps += [p.cdecl() for p in self.params]
         return '%s %s(%s)' % (self.ret_ctype, self.cname, ', '.join(ps) if ps else 'void')
 
@@ -783,6 +784,13 @@ class Translator:
         body = re.sub(r'\(\s*(?:std::)?numeric_limits\s*<\s*([\w: ]+?)\s*>\s*::\s*(\w+)\s*\)\s*\(\s*\)', sub, body)
         body = re.sub(r'(?:std::)?numeric_limits\s*<\s*([\w: ]+?)\s*>\s*::\s*(\w+)\s*(?:\(\s*\))?', sub, body)
         return body
+
+    # ---- R10: std::copy(a, a + n, b) on plain arrays
+    def rule_copy(self, body):
+        def cp(m):
+            self.report.hit('R10.array_copy')
+            return 'VERIF_COPY(%s, %s, %s)' % (m.group(3), m.group(1), m.group(2).strip())
+        return re.sub(r'(?<![\w.>])copy\s*\(\s*(\w+)\s*,\s*\1\s*\+\s*([^,()]+?)\s*,\s*(\w+)\s*\)', cp, body)
 
     # ---- R13/R14 strings
     def rule_strings(self, body, str_names):
